@@ -187,9 +187,26 @@ impl RecCtx<'_> {
                     txn.abort().map_err(se("abort"))?;
                     Ok(())
                 });
+                // context for triage: which commit created the savepoint, and was the state it
+                // captured already durable when the crash struck?
+                let ctx = match self.commits.iter().position(|c| c.psp.contains_key(id)) {
+                    Some(ci_idx) => {
+                        let c = &self.commits[ci_idx];
+                        let in_flight = c.ack_pos > ci.pos;
+                        let captured_unsynced = ci_idx > 0 && self.commits[ci_idx - 1].ack_pos > ci.sync_pos;
+                        format!(
+                            " [the savepoint was created by commit seq {} ({}), {}; the state it captured was {} at the crash]",
+                            c.seq,
+                            c.desc,
+                            if in_flight { "in flight at the crash" } else { "acknowledged before the crash" },
+                            if captured_unsynced { "not yet durable (written by a Durability::None commit)" } else { "durable" }
+                        )
+                    }
+                    None => String::new(),
+                };
                 match r {
-                    Err(p) => return Err(format!("panic restoring savepoint {id} after recovery: {}", p.short())),
-                    Ok(Err(f)) => return Err(f.text().to_string()),
+                    Err(p) => return Err(format!("panic restoring savepoint {id} after recovery{ctx}: {}", p.short())),
+                    Ok(Err(f)) => return Err(format!("restoring savepoint {id} after recovery{ctx}: {}", f.text())),
                     Ok(Ok(())) => self.stats.savepoints_restored += 1,
                 }
             }
